@@ -65,27 +65,27 @@ type Options struct {
 // GenOptions draws a set of physical options.
 func GenOptions(t *rapid.T) Options {
 	var o Options
-	o.XML.Decl = rapid.SampledFrom([]string{"short", "short", "", "none"}).Draw(t, "decl")
+	o.XML.Decl = rapid.SampledFrom([]string{"", "short", "short", "none"}).Draw(t, "decl")
 	o.XML.ExplicitEnd = rapid.Bool().Draw(t, "explicit_end")
 	o.XML.AttrReverse = rapid.Bool().Draw(t, "attr_reverse")
-	o.XML.SingleQuote = rapid.IntRange(0, 3).Draw(t, "squote") == 0
-	o.XML.Pretty = rapid.IntRange(0, 3).Draw(t, "pretty") == 0
-	o.XML.CharRefs = rapid.IntRange(0, 3).Draw(t, "charrefs") == 0
-	o.AltPrefixes = rapid.IntRange(0, 2).Draw(t, "altprefix") == 0
+	o.XML.SingleQuote = rapid.IntRange(0, 3).Draw(t, "squote") == 3
+	o.XML.Pretty = rapid.IntRange(0, 3).Draw(t, "pretty") == 3
+	o.XML.CharRefs = rapid.IntRange(0, 3).Draw(t, "charrefs") == 3
+	o.AltPrefixes = rapid.IntRange(0, 2).Draw(t, "altprefix") == 2
 	if rapid.Bool().Draw(t, "shuffle") {
 		o.Order = rapid.Permutation([]int{0, 1, 2, 3, 4, 5, 6}).Draw(t, "order")
 	}
-	o.StoreAll = rapid.IntRange(0, 3).Draw(t, "store") == 0
+	o.StoreAll = rapid.IntRange(0, 3).Draw(t, "store") == 3
 	o.AlwaysStyles = rapid.Bool().Draw(t, "always_styles")
 	o.ListStylesNamed = rapid.Bool().Draw(t, "list_styles_named")
 	o.NestedStyleName = rapid.Bool().Draw(t, "nested_style_name")
-	o.NoDefaultOutline = rapid.IntRange(0, 2).Draw(t, "no_default_outline") == 0
+	o.NoDefaultOutline = rapid.IntRange(0, 2).Draw(t, "no_default_outline") == 2
 	o.SpacesAsS = rapid.Bool().Draw(t, "spaces_as_s")
 	o.SOmitC = rapid.Bool().Draw(t, "s_omit_c")
-	o.SpanOne = rapid.IntRange(0, 3).Draw(t, "span_one") == 0
+	o.SpanOne = rapid.IntRange(0, 3).Draw(t, "span_one") == 3
 	o.ColumnsRepeated = rapid.Bool().Draw(t, "columns_repeated")
 	o.Noise = rapid.Bool().Draw(t, "noise")
-	o.Version11 = rapid.IntRange(0, 3).Draw(t, "v11") == 0
+	o.Version11 = rapid.IntRange(0, 3).Draw(t, "v11") == 3
 	return o
 }
 
